@@ -5,7 +5,8 @@
 (* operand on either side by one of the six operations, wraps it in a      *)
 (* pp.ad.Function, or shifts it to the previous time step / iterate.       *)
 (* Operands of a leaf are ALL leaf expressions (every leaf in every stored *)
-(* time state), so depth 1 is complete over the leaf table; beyond depth 1 *)
+(* time state; if ~PairAll at least one of the two is a core leaf), so     *)
+(* depth 1 is complete over the leaf table; beyond depth 1                 *)
 (* only expressions over the core leaves grow, with the core leaves (and,  *)
 (* if TwoSided, all depth-1 core expressions) as operands.                 *)
 (* Every root expression (Operator-valued, float / vector / AdArray        *)
@@ -17,7 +18,11 @@ EXTENDS OperatorTree, Json
 
 CONSTANTS MaxDepth,     \* depth bound of the enumeration
           TwoSided,     \* TRUE: operands beyond depth 1 include the depth-1 core expressions
-          EmitFrom      \* emit only expressions of at least this depth (0 = all)
+          EmitFrom,     \* emit only expressions of at least this depth (0 = all)
+          CoreStart,    \* TRUE: start from the core leaves only (random walks into depth 2 and 3)
+          PairAll,      \* TRUE: depth 1 pairs every leaf with every leaf; FALSE: every leaf with every core leaf
+          SampleMod,    \* composites are expanded further only if Code(e) % SampleMod = SampleRes (1, 0: all of them):
+          SampleRes     \* a deterministic pseudo-random subset of the deeper space
 
 VARIABLES e
 evars == <<e>>
@@ -34,21 +39,47 @@ OverCore(x) == CASE x[1] = "leaf" -> x \in CoreLeafExprs
                  [] x[1] = "fn" -> \A j \in 1..Len(x[3]) : OverCore(x[3][j])
                  [] OTHER -> OverCore(x[3])
 
-Candidates(x, operands) ==
-  {Bin(op, x, y) : op \in Ops, y \in operands} \cup {Bin(op, y, x) : op \in Ops, y \in operands}
-  \cup {Fn(f, <<x>>) : f \in UnaryFns}
-  \cup {Fn("max", <<x, y>>) : y \in operands} \cup {Fn("max", <<y, x>>) : y \in operands}
-  \cup {Shift("time", x), Shift("iter", x)}
-Grow(x, operands) == {c \in Candidates(x, operands) : WellTyped(c)}
+\* An operand with what the typing rules need to know about it (computed once: these sets are constants)
+Info(y) == [e |-> y, k |-> Direct(y, 0, 0, "deriv").k, h |-> Hot(y), raw |-> IsRaw(y)]
+InfoSet(S) == {Info(y) : y \in S}
+Max2(a, b) == IF a >= b THEN a ELSE b
 
-D1Core == UNION {Grow(x, CoreLeafExprs) : x \in CoreLeafExprs}
+\* all well-typed one-step extensions of x (typing is compositional outside shifts: the kind of  x op y  follows
+\* from the kinds of x and y; TypeOK re-derives the full typing of every reached expression)
+Grow(x, ops) ==
+  LET kx == Direct(x, 0, 0, "deriv").k
+      hx == Hot(x)
+      rx == IsRaw(x)
+  IN {Bin(op, x, y.e) : <<op, y>> \in {z \in Ops \X ops : ~(rx /\ z[2].raw) /\ DirectK(z[1], kx, z[2].k) # KE
+                                                          /\ Max2(hx, z[2].h) + (IF z[1] = "**" THEN 1 ELSE 0) <= 2}}
+     \cup {Bin(op, y.e, x) : <<op, y>> \in {z \in Ops \X ops : ~(rx /\ z[2].raw) /\ DirectK(z[1], z[2].k, kx) # KE
+                                                             /\ Max2(hx, z[2].h) + (IF z[1] = "**" THEN 1 ELSE 0) <= 2}}
+     \cup (IF rx THEN {} ELSE
+           {Fn(f, <<x>>) : f \in {g \in UnaryFns : FnK(g, <<kx>>) # KE /\ hx + (IF g = "exp" THEN 1 ELSE 0) <= 2}}
+           \cup {Fn("max", <<x, y.e>>) : y \in {z \in ops : ~z.raw /\ FnK("max", <<kx, z.k>>) # KE}}
+           \cup {Fn("max", <<y.e, x>>) : y \in {z \in ops : ~z.raw /\ FnK("max", <<z.k, kx>>) # KE}}
+           \cup {c \in {Shift("time", x), Shift("iter", x)} : WellTyped(c)})
 
-Operands(x) == IF Depth(x) = 0 THEN AllLeafExprs
-               ELSE IF TwoSided THEN CoreLeafExprs \cup D1Core ELSE CoreLeafExprs
+AllOperands == InfoSet(AllLeafExprs)
+CoreOperands == InfoSet(CoreLeafExprs)
+D1Core == IF TwoSided THEN UNION {Grow(x, CoreOperands) : x \in CoreLeafExprs} ELSE {}
+DeepOperands == CoreOperands \cup InfoSet(D1Core)
 
-Init == e \in AllLeafExprs
+Operands(x) == IF Depth(x) = 0 /\ ~CoreStart THEN (IF PairAll \/ x \in CoreLeafExprs THEN AllOperands ELSE CoreOperands)
+               ELSE DeepOperands
+
+Init == e \in (IF CoreStart THEN CoreLeafExprs ELSE AllLeafExprs)
+\* a structural hash, only used to thin out the expansion of composites
+LeafIdx(nm) == CHOOSE i \in 1..Len(Leaves) : Leaves[i].name = nm
+OpCode(op) == CASE op = "+" -> 1 [] op = "-" -> 2 [] op = "*" -> 3 [] op = "/" -> 4 [] op = "**" -> 5 [] OTHER -> 6
+RECURSIVE Code(_)
+Code(x) == CASE x[1] = "leaf" -> LeafIdx(x[2]) + 37 * (x[3] + 1) + 41 * (x[4] + 1)
+             [] x[1] = "bin" -> (OpCode(x[2]) + 31 * Code(x[3]) + 17 * Code(x[4])) % 9973
+             [] x[1] = "fn" -> (7 * Len(x[2]) + 5 * Len(x[3]) + 29 * Code(x[3][1]) + (IF Len(x[3]) = 2 THEN 23 * Code(x[3][2]) ELSE 0)) % 9973
+             [] OTHER -> (11 + Len(x[2]) + 3 * Code(x[3])) % 9973
+
 Next == /\ Depth(e) < MaxDepth
-        /\ Depth(e) = 0 \/ OverCore(e)
+        /\ IF Depth(e) = 0 THEN TRUE ELSE OverCore(e) /\ Code(e) % SampleMod = SampleRes
         /\ e' \in Grow(e, Operands(e))
 Spec == Init /\ [][Next]_evars
 
@@ -58,11 +89,13 @@ Emit == (IsRoot(e) /\ Depth(e) >= EmitFrom /\ Depth(e) <= MaxDepth) =>
                          kind |-> RootKind(e, "deriv"),
                          prev |-> LET s == PrevSubs(e, 0, 0) IN [j \in 1..Len(s) |-> [expr |-> s[j], prog |-> DirectProg(s[j], 0, 0)]]]))
 
-\* design-level laws on every reachable (well-typed) expression
+\* design-level laws on every reachable expression (one invariant each; DesignLaws = all of them, cheaper to check)
 TypeOK == WellTyped(e)
 BuildDefined == IsRaw(e) \/ LawBuildDefined(e)
 ParseAgreesDirect == IsRaw(e) \/ (LawParseAgreesDirect(e, "deriv") /\ LawParseAgreesDirect(e, "value"))
 ValueModeConsistent == IsRaw(e) \/ LawValueModeConsistent(e)
 PrevNoDerivative == IsRaw(e) \/ LawPrevNoDerivative(e)
 NoNumpyCapture == IsRaw(e) \/ LawNoNumpyCapture(e)
+DesignLaws == /\ TypeOK
+              /\ IsRaw(e) \/ LawsOf(e)
 ==============================================================================
